@@ -131,7 +131,13 @@ func lenExact(rng *rand.Rand, idx int) []lenOp {
 	if idx < 60 {
 		t = []int{0x00, 0xff, 0x3f, 0x40, 0xc0}[(idx/12)%5]
 	}
-	switch (idx / 4) % 3 {
+	switch (idx / 4) % 4 {
+	case 3:
+		// armed with length enabled, the power switched off for a while (the sequencer goes on, the counters keep their
+		// value, the enable bits are cleared), on again, triggered with length enabled without rewriting the length
+		ops = append(ops, lenOp{w: true, addr: nrx2, v: 0xf0}, lenOp{w: true, addr: nrx1, v: t}, lenOp{w: true, addr: nrx4, v: 0xc0}, lenOp{n: rng.Intn(9000)},
+			lenOp{w: true, addr: 0xff26, v: 0x00}, lenOp{n: 2048*rng.Intn(24) + rng.Intn(2048)}, lenOp{w: true, addr: 0xff26, v: 0x80},
+			lenOp{n: rng.Intn(5000)}, lenOp{w: true, addr: nrx2, v: 0xf0}, lenOp{w: true, addr: nrx4, v: 0xc0})
 	case 0:
 		// length data, then trigger with length enabled
 		ops = append(ops, lenOp{w: true, addr: nrx2, v: 0xf0}, lenOp{w: true, addr: nrx1, v: t})
